@@ -15,6 +15,7 @@ import (
 	"encoding/json"
 	"fmt"
 	"os"
+	"path/filepath"
 	"sort"
 	"strconv"
 	"strings"
@@ -72,6 +73,28 @@ func pipeNames(ps []pipe.Pipe) []string {
 		r[i] = p.Name
 	}
 	return r
+}
+
+// copyDir copies a directory tree (regular files and directories)
+func copyDir(src, dst string) error {
+	return filepath.Walk(src, func(p string, info os.FileInfo, err error) error {
+		if err != nil {
+			return err
+		}
+		rel, _ := filepath.Rel(src, p)
+		t := filepath.Join(dst, rel)
+		if info.IsDir() {
+			return os.MkdirAll(t, 0750)
+		}
+		if !info.Mode().IsRegular() {
+			return nil
+		}
+		b, err := os.ReadFile(p)
+		if err != nil {
+			return err
+		}
+		return os.WriteFile(t, b, 0640)
+	})
 }
 
 func hexNames(ns []string) string {
@@ -180,7 +203,7 @@ func sectionListing(rng *vh.Rng) {
 // history
 
 type op struct {
-	Kind   string `json:"kind"` // create | createLql | ensure | delete | deleteLql | get | describe | show | restart
+	Kind   string `json:"kind"` // create | createLql | ensure | delete | deleteLql | get | describe | show | restart | crash
 	Name   string `json:"name,omitempty"`
 	Tags   string `json:"tags,omitempty"`
 	Flt    string `json:"flt,omitempty"`
@@ -258,6 +281,8 @@ func genHistory(rng *vh.Rng) history {
 		case 11:
 			if rng.Chance(1, 3) {
 				h.Ops = append(h.Ops, op{Kind: "restart"})
+			} else if rng.Chance(1, 3) {
+				h.Ops = append(h.Ops, op{Kind: "crash"})
 			} else {
 				h.Ops = append(h.Ops, op{Kind: "show"})
 			}
@@ -294,13 +319,19 @@ func describeField(out, key string) string {
 // in the model's vocabulary; SPEC (a plain Go map) is checked inline.
 func runHistory(h history, sec *vh.Section) (lines, impls []string) {
 	dir := lrsrv.NewDir()
-	defer os.RemoveAll(dir)
+	defer func() { os.RemoveAll(dir) }()
 	srv, err := lrsrv.Start(dir, lrsrv.Opts{})
 	if err != nil {
 		res.Note("history: %v", err)
 		return
 	}
 	defer func() { srv.Stop() }()
+	// the answer of a (re)start in the model's format: the sorted names of the registry
+	started := func() string {
+		ns := pipeNames(srv.Pipes.GetPipes())
+		sort.Strings(ns)
+		return strings.TrimRight(fmt.Sprintf("ok %d %s", len(ns), hexNames(ns)), " ")
+	}
 	spec := map[string]pipe.Pipe{}
 	ctx := context.Background()
 	lines = append(lines, "reset")
@@ -470,13 +501,35 @@ func runHistory(h history, sec *vh.Section) (lines, impls []string) {
 				specFail("listing-not-sorted-or-incomplete", "SHOW PIPES page is not the page of the alphabetical list of existing pipes",
 					fmt.Sprintf("%d %q", total, names), fmt.Sprintf("%d %q", len(all), want))
 			}
+		case "crash":
+			// what a crash at this (quiescent) moment leaves: the directory as it is now, without a Shutdown. Only compared with
+			// the model (which operations persist the registry is a regenerated fact); crashes are C07's property.
+			dir2 := lrsrv.NewDir()
+			if cerr := copyDir(dir, dir2); cerr != nil {
+				os.RemoveAll(dir2)
+				res.Note("history: copying the directory: %v", cerr)
+				continue
+			}
+			srv.Stop()
+			os.RemoveAll(dir)
+			dir = dir2
+			srv, err = lrsrv.Start(dir, lrsrv.Opts{})
+			lines = append(lines, "crash")
+			if err != nil {
+				impls = append(impls, "refused")
+				return
+			}
+			impls = append(impls, started())
 		case "restart":
 			srv.Stop()
 			srv, err = lrsrv.Start(dir, lrsrv.Opts{})
+			lines = append(lines, "restart")
 			if err != nil {
+				impls = append(impls, "refused")
 				specFail("restart-refused", "the server must start again after a clean stop", err.Error(), "starts")
 				return
 			}
+			impls = append(impls, started())
 			// the registry must be what it was: probe every name of the spec and the size of the listing
 			got := srv.Pipes.GetPipes()
 			if len(got) != len(spec) {
@@ -499,7 +552,7 @@ func runHistory(h history, sec *vh.Section) (lines, impls []string) {
 
 func sectionHistory(rng *vh.Rng) {
 	sec := res.Section("history", "system-correspondence",
-		"random histories of 4..18 operations (create via pipe.Service and via CREATE PIPE, ensure via the RPC Pipes API, delete, get, DESCRIBE PIPE, SHOW PIPES with OFFSET/LIMIT, clean restart) over pools of 2..6 names, one eighth of the conditions unparsable; every answer compared with the Lean registry model and with a Go map; non-trivial = at least 4 operations, distinct by operation list")
+		"random histories of 4..18 operations (create via pipe.Service and via CREATE PIPE, ensure via the RPC Pipes API, delete, get, DESCRIBE PIPE, SHOW PIPES with OFFSET/LIMIT, clean restart, crash image = the directory as it is without a shutdown) over pools of 2..6 names, one eighth of the conditions unparsable; every answer compared with the Lean registry model and with a Go map; non-trivial = at least 4 operations, distinct by operation list")
 	n := 300
 	if args.Thorough {
 		n = 3000
